@@ -180,7 +180,6 @@ Qed.
 (* ------------------------------------------------------------------------------------------ *)
 (* PostgreSQL RETURNING                                                                         *)
 (* ------------------------------------------------------------------------------------------ *)
-Definition no_critless (s : qst) : bool := negb (existsb (fun j => is_none (j_crit j)) (q_joins s)).
 Definition in_targets (s : qst) (f : tref) : bool :=
   mem f [option_map TTab (q_insert s); option_map TTab (q_update s)].
 Definition not_base_f (s : qst) (f : tref) : bool :=
@@ -190,28 +189,25 @@ Definition not_base_f (s : qst) (f : tref) : bool :=
   end.
 
 Lemma validate_ret1_ok : forall s f u,
-  is_dml s = true -> no_critless s = true ->
+  is_dml s = true ->
   validate_ret1 s (Ok u) f = if negb (in_targets s f) && not_base_f s f then Err QueryExc else Ok tt.
-Proof.
-  intros s f u Hd Hc. unfold validate_ret1. rewrite Hd.
-  unfold no_critless in Hc. apply negb_true_iff in Hc. rewrite Hc. reflexivity.
-Qed.
+Proof. intros s f u Hd. unfold validate_ret1. rewrite Hd. reflexivity. Qed.
 Lemma validate_ret_fold : forall s fields acc,
-  is_dml s = true -> no_critless s = true ->
+  is_dml s = true ->
   fold_left (validate_ret1 s) fields acc =
   match acc with
   | Err e => Err e
   | Ok _ => if existsb (fun f => negb (in_targets s f) && not_base_f s f) fields then Err QueryExc else Ok tt
   end.
 Proof.
-  intros s fields. induction fields as [|f fields IH]; intros acc Hd Hc.
+  intros s fields. induction fields as [|f fields IH]; intros acc Hd.
   - cbn. destruct acc as [[]|]; auto.
   - cbn [fold_left existsb]. rewrite IH by auto. destruct acc as [u|e]; [|reflexivity].
     rewrite validate_ret1_ok by auto.
     destruct (negb (in_targets s f) && not_base_f s f); reflexivity.
 Qed.
 Lemma validate_ret_spec : forall s fields,
-  is_dml s = true -> no_critless s = true ->
+  is_dml s = true ->
   validate_ret s fields =
   if existsb (fun f => negb (in_targets s f) && not_base_f s f) fields then Err QueryExc else Ok tt.
 Proof. intros. unfold validate_ret. now rewrite validate_ret_fold. Qed.
@@ -253,20 +249,18 @@ Definition skipped (star : bool) (t : rterm) : bool :=
 Definition star_term (t : rterm) : bool := match t with RStr true => true | _ => false end.
 
 Definition term_ok (s : qst) (t : rterm) : Prop :=
-  (needs_crit t = false \/ no_critless s = true)
-  /\ (t = RStr false -> is_some (q_insert s) || is_some (q_update s) || negb (q_delete s) || truthy (List.length (q_from s)) = true).
+  (t = RStr false -> is_some (q_insert s) || is_some (q_update s) || negb (q_delete s) || truthy (List.length (q_from s)) = true).
 
 Lemma ret1_exact : forall s t, is_dml s = true -> term_ok s t ->
   ret1 s t = if skipped (pg_rstar s) t then Ok s
              else if ret_bad s t then Err QueryExc
              else Ok (if star_term t then set_rstar s true else s).
 Proof.
-  intros s t Hd [Hc Hdel].
+  intros s t Hd Hdel.
   destruct t as [[|]|p n| |fk args|l r].
   - (* '*' *) unfold skipped. rewrite andb_false_r. reflexivity.
   - (* 'name' *)
     unfold skipped. rewrite andb_true_r. cbn [ret1].
-    destruct Hc as [Hc|Hc]; [discriminate|].
     specialize (Hdel eq_refl).
     assert (Hok : forall p, in_targets s (Some (TTab p)) = true ->
                   return_field s [Some (TTab p)] = if pg_rstar s then Ok s else Ok s).
@@ -287,7 +281,6 @@ Proof.
   - (* a field *)
     unfold skipped. rewrite andb_true_r. cbn [ret1 star_term]. unfold return_field.
     destruct (pg_rstar s); auto.
-    destruct Hc as [Hc|Hc]; [discriminate|].
     rewrite validate_ret_spec by auto.
     rewrite term_validate_exact.
     unfold ret_bad. cbn [is_fn andb orb].
@@ -296,19 +289,13 @@ Proof.
   - (* a function *)
     unfold skipped. rewrite andb_false_r. cbn [ret1 star_term]. unfold ret_bad. cbn [is_fn andb].
     destruct (is_agg (RFn fk args)) as [[|]|] eqn:Ea; cbn [orb]; auto;
-      (destruct Hc as [Hc|Hc];
-       [ cbn in Hc; unfold has_fields in Hc; unfold term_fields;
-         destruct (rfields (RFn fk args)); [reflexivity|discriminate]
-       | rewrite validate_ret_spec by auto; rewrite term_validate_exact;
-         destruct (existsb _ (rfields (RFn fk args))); auto ]).
+      (rewrite validate_ret_spec by auto; rewrite term_validate_exact;
+       destruct (existsb _ (rfields (RFn fk args))); auto).
   - (* an arithmetic expression *)
     unfold skipped. rewrite andb_false_r. cbn [ret1 star_term]. unfold ret_bad. cbn [is_fn andb].
     destruct (is_agg (RArith l r)) as [[|]|] eqn:Ea; cbn [orb]; auto;
-      (destruct Hc as [Hc|Hc];
-       [ cbn in Hc; unfold has_fields in Hc; unfold term_fields;
-         destruct (rfields (RArith l r)); [reflexivity|discriminate]
-       | rewrite validate_ret_spec by auto; rewrite term_validate_exact;
-         destruct (existsb _ (rfields (RArith l r))); auto ]).
+      (rewrite validate_ret_spec by auto; rewrite term_validate_exact;
+       destruct (existsb _ (rfields (RArith l r))); auto).
 Qed.
 
 Lemma effective_cons : forall star t ts,
@@ -414,21 +401,15 @@ Proof.
   - (* do_update *) destruct s; unf; cbn. destruct pg_nothing, f; fin.
   - (* where *) destruct s; unf; cbn. destruct empty, pg_conflict, pg_nothing, pg_fields, pg_updates; fin.
   - (* returning *)
-    apply andb_prop in Hwf. destruct Hwf as [Hw1 Hw2].
     unf. cbn. rewrite hd_if. cbn.
     destruct (is_dml s) eqn:Hd; cbn.
     + rewrite andb_false_r. rewrite returning_exact; auto.
       * split; intros [H1 H2]; auto.
-      * intros t Ht. split.
-        -- destruct (needs_crit t) eqn:En; auto. right.
-           apply orb_prop in Hw2. destruct Hw2 as [Hw2|Hw2]; auto.
-           apply negb_true_iff in Hw2. exfalso.
-           assert (existsb needs_crit ts = true) by (apply existsb_exists; eauto). congruence.
-        -- intros ->.
-           destruct (existsb (fun t => match t with RStr false => true | _ => false end) ts) eqn:Ex.
-           ++ cbn in Hw1. exact Hw1.
-           ++ exfalso. apply Bool.not_true_iff_false in Ex. apply Ex.
-              apply existsb_exists. exists (RStr false). auto.
+      * intros t Ht. intros ->.
+        destruct (existsb (fun t => match t with RStr false => true | _ => false end) ts) eqn:Ex.
+        -- cbn in Hwf. exact Hwf.
+        -- exfalso. apply Bool.not_true_iff_false in Ex. apply Ex.
+           apply existsb_exists. exists (RStr false). auto.
     + destruct ts as [|t ts]; cbn; split; intro H; try discriminate.
       * destruct H; discriminate.
       * injection H as <-. auto.
